@@ -27,6 +27,7 @@ type Entity struct {
 	Children  []*Entity // multipart only
 	Preamble  []byte
 	Epilogue  []byte
+	Raw       []byte // the entity exactly as it appeared (header section + body)
 }
 
 func (e *Entity) Get(name string) (string, int) {
@@ -161,7 +162,7 @@ func parseEntity(b []byte, depth int) (*Entity, error) {
 	if err != nil {
 		return nil, err
 	}
-	e := &Entity{Fields: fields, Body: body, Params: map[string]string{}}
+	e := &Entity{Fields: fields, Body: body, Params: map[string]string{}, Raw: b}
 	ct, n := e.Get("Content-Type")
 	if n > 1 {
 		return nil, fmt.Errorf("duplicate Content-Type")
